@@ -8,6 +8,10 @@ from .properties import (
 )
 from .utils import PREFIX_21_REGEX
 
+# Property names: only a-z, 0-9 and underscore, 3 to 250 characters ("id" is
+# the one specification-defined name which is shorter).
+PROPERTY_NAME_REGEX = re.compile(r'^[a-z0-9_]{3,250}\Z')
+
 
 def _validate_ref_props(props_map, is_observable20=False):
     """
@@ -59,6 +63,13 @@ def _validate_props(props_map, version, **kwargs):
     Raises:
         ValueError: If the properties do not conform.
     """
+    for prop_name in props_map:
+        if prop_name != "id" and not re.match(PROPERTY_NAME_REGEX, prop_name):
+            raise ValueError(
+                "Invalid property name '%s': must only contain the characters "
+                "a-z (lowercase ASCII), 0-9, and underscore (_) and must be "
+                "between 3 and 250 characters." % prop_name,
+            )
     # Confirm conformance with STIX 2.1+ requirements for property names
     if version != "2.0":
         for prop_name, prop_value in props_map.items():
